@@ -21,11 +21,16 @@ for name in names:
     if a.returncode != 0:
         print(name, "patch does not apply:", a.stderr.strip()[:200])
         continue
+    # EVIDENCE_KEEP: the evidence file describes the unchanged tree; a run on a seeded tree must not replace it
+    evp = os.path.join(ROOT, "evidence", f"{prop}.json")
+    saved = open(evp).read() if os.path.exists(evp) else None
     try:
         chk = subprocess.run(["./check", prop, "--no-bounded"] if "--with-bounded" not in os.environ.get("SEED_FLAGS", "") else ["./check", prop],
                              cwd=ROOT, capture_output=True, text=True)
     finally:
         subprocess.run(["git", "-C", "/repo", "checkout", "--", "."])
+        if saved is not None:
+            open(evp, "w").write(saved)
     lines = [l for l in chk.stdout.splitlines() if l.startswith(("VIOLATION", "UNDECIDED", prop + ":", "ENGINE", "CRASH", "BOUNDED"))]
     verdict = {0: "missed", 1: "detected", 2: "undecided (exit 2, not silent)", 3: "checker error"}.get(chk.returncode, str(chk.returncode))
     meta["check"] = {"cmd": f"./check {prop} --no-bounded", "exit": chk.returncode, "verdict": verdict, "lines": lines[:6] + lines[-2:]}
